@@ -4,6 +4,7 @@ import Driver.Params
 import Driver.Recovery
 import Driver.Receiver
 import Driver.Config
+import Driver.Route
 /-!
 fbdriver: reads `<id>\t<input>\t<impl observation>` lines on stdin, runs the model of the chosen
 component on `<input>` and prints one verdict line per case:
@@ -23,6 +24,7 @@ def dispatch (comp : String) : Option (String → String → Verdict) :=
   | "recovery" => some Recovery.check
   | "receiver" => some Receiver.check
   | "config" => some Config.check
+  | "route" => some Route.check
   | _ => none
 
 partial def loop (h : IO.FS.Stream) (out : IO.FS.Stream) (f : String → String → Verdict) : IO Unit := do
